@@ -156,6 +156,21 @@ def check_after(ctx, sess, o, k, kind, d, case):
     again = [n for n, t in o2.calls if n in have]
     if again:
         ctx.violation(f'{key}:asked-again', f'after {kind} at call {k}: the re-run prompted again for {again[:4]}', case)
+    # the re-run writes the file back as habutax itself read it: everything given so far must still be there
+    try:
+        cp2 = strict_parse(o2.input_after)
+    except Exception as e:
+        ctx.violation(f'{key}:file-unparsable-after-rerun', f'after {kind} at call {k} and a re-run: {e!r}', case)
+        return
+    for name, t in list(sess.initial.items()) + list(o.accepted):
+        sec, opt = name.split('.', 1)
+        try:
+            got = cp2.get(sec, opt) if cp2.has_option(sec, opt) else None
+        except Exception as e:
+            got = e
+        if not isinstance(got, str) or got.strip() != t.strip():
+            ctx.violation(f'{key}:value-lost-on-rerun', f'after {kind} at call {k}: {name}={t!r} was in the file, but after re-running on it (habutax reads and writes the file back) it is {got!r}', case)
+            return
 
 
 def explore_session(ctx, sess, kinds, ks=None):
@@ -210,7 +225,7 @@ def shard(ctx, k_, payload):
                 cat.ensure(k.split('.')[0])
                 inp = cat.inputs.get(k)
                 if inp is not None and catalog.input_kind(inp) == 'str' and data.draw(st.integers(0, 4)) == 0:
-                    answers[k] = data.draw(st.sampled_from(['100% sure', 'a (b', 'x\\y', '50 %', "O'Neil; #1"]))
+                    answers[k] = data.draw(st.sampled_from(['100% sure', 'a (b', 'x\\y', '50 %', "O'Neil; #1", '12 Elm St #4', '#4', 'a ;b', 'k = v']))
         invalid_first = {k for k in keys if k not in initial and data.draw(st.integers(0, 5)) == 0}
         sess = Session(sc['year'], sc['forms'], initial, answers, invalid_first)
         nn = explore_session(ctx, sess, KINDS)
